@@ -139,6 +139,7 @@ CALL = {
     "sort": lambda x, r, ev: x.sort(k=-1),
     "unique": lambda x, r, ev: x.unique("k"),
     "head": lambda x, r, ev: x.head(1),
+    "head0": lambda x, r, ev: x.head(0),   # an EMPTY list obtained from x is still obtained from x
     "tail": lambda x, r, ev: x.tail(1),
     "slice": lambda x, r, ev: x[1:],
     "copy": lambda x, r, ev: x.copy(),
@@ -167,13 +168,13 @@ CALL = {
     "pluck": lambda x, r, ev: x.pluck("k"),
     "to_string": lambda x, r, ev: x.to_string(),
 }
-SIMPLE_D = ("filter_fn", "filter_kv", "sort", "unique", "head", "tail", "slice", "copy", "reverse",
+SIMPLE_D = ("filter_fn", "filter_kv", "sort", "unique", "head", "head0", "tail", "slice", "copy", "reverse",
             "chain_filter_sort", "chain_slice_reverse")
 SIMPLE_E = ("modify", "modify_if", "modify_if_nested", "rename", "select", "unselect", "fill", "fill_kv")
 USES = ("pluck", "to_string")
 # which method of the statement each op instantiates (for the reference model and reports)
 METHOD = {"filter_fn": "filter", "filter_kv": "filter", "modify_if_nested": "modify_if",
-          "chain_filter_sort": "sort", "chain_slice_reverse": "reverse",
+          "chain_filter_sort": "sort", "chain_slice_reverse": "reverse", "head0": "head",
           "fill": "fill_missing_keys", "fill_kv": "fill_missing_keys"}
 for _op in CALL:
     METHOD.setdefault(_op, _op)
@@ -183,7 +184,7 @@ assert all(METHOD[o] in ref.IN_PLACE for o in SIMPLE_E + ("inner_join", "left_jo
 
 SOURCE = {
     "filter_fn": "{x}.filter(lambda it: it['k'] == 1)", "filter_kv": "{x}.filter(k=2)", "sort": "{x}.sort(k=-1)",
-    "unique": "{x}.unique('k')", "head": "{x}.head(1)", "tail": "{x}.tail(1)", "slice": "{x}[1:]",
+    "unique": "{x}.unique('k')", "head": "{x}.head(1)", "head0": "{x}.head(0)", "tail": "{x}.tail(1)", "slice": "{x}[1:]",
     "copy": "{x}.copy()", "reverse": "{x}.reverse()",
     "chain_filter_sort": "{x}.filter(lambda it: True).sort(k=-1)", "chain_slice_reverse": "{x}[0:].reverse()", "sample": "{x}.sample({n})  # random.sample answers {answer}",
     "semi_join": "{x}.semi_join({r}, 'k')", "anti_join": "{x}.anti_join({r}, 'k')",
